@@ -840,7 +840,7 @@ func runC16(c *Ctx) {
 		one(0, "replay", replayInput)
 		return
 	}
-	docStream(c.Seed, "c16", c.N(60000, 1200000), true, func(idx int, kind string, doc []byte) bool {
+	docStream(c.Seed, "c16", c.N(60000, 500000), true, func(idx int, kind string, doc []byte) bool {
 		one(idx, kind, doc)
 		return true
 	})
@@ -850,7 +850,7 @@ func runC16(c *Ctx) {
 	alpha := []string{"a", " ", "\n", "-", ">", "`", "#", "[", "]", ":", "=", "\t", "<"}
 	max := 5
 	if !c.quick() {
-		max = 6
+		max = 5 // 13^6 strings would take over an hour
 	}
 	i := 0
 	enumStrings(alpha, max, func(s []byte) bool {
